@@ -337,7 +337,7 @@ pub fn build(sp: &SessP) -> Result<Session, String> {
         interleave_blocks: sp.w.min(255) as u8,
         profile: sender::Profile::RFC6726,
         toi_max_length: sender::TOIMaxLength::ToiMax112,
-        toi_initial_value: Some(1),
+        toi_initial_value: Some(sp.toi0),
         groups: if sp.sgrp { Some(vec!["sess-grp".to_string()]) } else { None },
     };
     let mut snd = sender::Sender::new(endpoint(), TSI, &oti, &config);
